@@ -90,7 +90,16 @@ func (pw *packetWriter) ReadFrom(r io.Reader) (n int64, err error) {
 	for {
 		// A reader may return fewer bytes than asked for; keep reading
 		// until a whole packet is buffered or the reader ends or fails.
-		nr, er := io.ReadFull(r, buf)
+		// (Not io.ReadFull: it reports a stream that ends inside a packet as
+		// io.ErrUnexpectedEOF, which could no longer be told apart from a
+		// reader that itself fails with that error.)
+		nr := 0
+		var er error
+		for nr < PacketSize && er == nil {
+			var m int
+			m, er = r.Read(buf[nr:])
+			nr += m
+		}
 		if nr == PacketSize {
 			nw, ew := pw.WritePacket(&pw.pkt)
 			if nw > 0 {
@@ -108,7 +117,7 @@ func (pw *packetWriter) ReadFrom(r io.Reader) (n int64, err error) {
 			err = gots.ErrInvalidPacketLength
 		}
 		if er != nil {
-			if er != io.EOF && er != io.ErrUnexpectedEOF {
+			if er != io.EOF {
 				err = er
 			}
 			break
